@@ -134,8 +134,9 @@ class Val:
 
 
 class Gen:
-    def __init__(self, rng, stretch=True, big=None):
+    def __init__(self, rng, stretch=True, big=None, long_in_container=False):
         self.rng = rng
+        self.long_in_container = long_in_container   # make the first std::string inside a container longer than the SSO buffer
         self.stretch = stretch
         self.big = big          # number of bytes of the one oversized string of this case (or None)
         self.nalt_bits = 0
@@ -243,7 +244,12 @@ class Gen:
                 e = f"const_cast<char*>({e})"
             return Val(ct, e, adj=len(bs) - len(v["b"]))
         if k in ("str", "sv", "sref"):
-            bs = self.bytes_for(v)
+            if k == "str" and in_container and self.long_in_container and 1 in v:
+                self.long_in_container = False
+                m = r.choice([16, 17, 24, 40])
+                bs = bytes(bb for b in v for bb in (b"\0" if b == 0 else self.nonnul(m)))
+            else:
+                bs = self.bytes_for(v)
             adj = len(bs) - len(v)
             if len(bs) > 100000:
                 body = f"std::string({len(bs)}, 'q')"
@@ -327,30 +333,36 @@ class Gen:
                 kids = [kids[0]] + [self._retype(et, x, kids[0].ctype, True, is_set) for x in v[1:]]
                 if is_set and not multi and len({x.expr for x in kids}) != len(kids):
                     raise Unrealisable("set elements equal after retyping")
-            ect = kids[0].ctype if kids else self.node(et, self._default_val(et), True, key=is_set).ctype
-            eot = kids[0].otype if kids else self._otype_of(et, ect)
+            if kids:
+                ect, eot = kids[0].ctype, kids[0].otype
+            else:   # the C++ types (logged and oracle side) depend on the type only, never on the value
+                proto = self.node(et, self._default_val(et), True, key=is_set)
+                ect, eot = proto.ctype, proto.otype
+            tsame = ect == eot
             adj = sum(x.adj for x in kids)
             if k == "carray":
                 return Val(ect, "{" + ", ".join(x.expr for x in kids) + "}", adj=adj, decl=("carray", t["n"]))
             if k == "arr":
                 ct = f"std::array<{ect}, {t['n']}>"
                 e = f"{ct}{{{{{', '.join(x.expr for x in kids)}}}}}"
-                same = all(x.same for x in kids)
+                same = tsame and all(x.same for x in kids)
                 ot = f"std::array<{eot}, {t['n']}>"
                 oe = f"{ot}{{{{{', '.join(x.oexpr for x in kids)}}}}}"
                 return Val(ct, e, ot, oe if not same else e, same, adj, calloc=any(x.calloc for x in kids))
             ct = f"{SEQ1[k]}<{ect}>"
             e = f"{ct}{{{', '.join(x.expr for x in kids)}}}"
-            same = all(x.same for x in kids)
-            if k in UNORDERED and len(kids) >= 1:
+            same = tsame and all(x.same for x in kids)
+            if k in UNORDERED:     # the oracle type depends on the type only, never on the value
                 ot = f"vh::PermSet<{eot}>"
-                if len(kids) == 1:
+                if not kids:
+                    oe = f"{ot}{{}}"
+                elif len(kids) == 1:
                     oe = f"vh::perm1<{ot}>(static_cast<{eot}>({kids[0].oexpr}))"
                 else:
                     bit = self.nalt_bits
                     self.nalt_bits += 1
                     oe = f"vh::perm2<{ot}>((alt >> {bit}) & 1, static_cast<{eot}>({kids[0].oexpr}), static_cast<{eot}>({kids[1].oexpr}))"
-                return Val(ct, e, ot, oe, False, adj, calloc=True)
+                return Val(ct, e, ot, oe, False, adj, calloc=len(kids) > 0)
             ot = f"{SEQ1[k]}<{eot}>"
             oe = f"{ot}{{{', '.join(x.oexpr for x in kids)}}}"
             return Val(ct, e, ot, oe if not same else e, same, adj, calloc=len(kids) > 0)
@@ -394,20 +406,22 @@ class Gen:
             ct = f"{MAPS[k]}<{kct}, {vct}>"
             e = f"{ct}{{{', '.join(f'{ct}::value_type({a.expr}, {b.expr})' for a, b in zip(keys, vals))}}}"
             adj = sum(x.adj for x in keys) + sum(x.adj for x in vals)
-            same = all(x.same for x in vals)
+            same = vct == vot and all(x.same for x in vals)
             if any(x.calloc for x in keys) or any(x.calloc for x in vals):
                 self.map_pair_copy = True
-            if k in UNORDERED and keys:
+            if k in UNORDERED:
                 ot = f"vh::PermMap<{kct}, {vot}>"
                 pt = f"std::pair<{kct}, {vot}>"
-                if len(keys) == 1:
+                if not keys:
+                    oe = f"{ot}{{}}"
+                elif len(keys) == 1:
                     oe = f"vh::perm1<{ot}>({pt}({keys[0].oexpr}, {vals[0].oexpr}))"
                 else:
                     bit = self.nalt_bits
                     self.nalt_bits += 1
                     oe = (f"vh::perm2<{ot}>((alt >> {bit}) & 1, {pt}({keys[0].oexpr}, {vals[0].oexpr}), "
                           f"{pt}({keys[1].oexpr}, {vals[1].oexpr}))")
-                return Val(ct, e, ot, oe, False, adj, calloc=True)
+                return Val(ct, e, ot, oe, False, adj, calloc=len(keys) > 0)
             ot = f"{MAPS[k]}<{kct}, {vot}>"
             oe = f"{ot}{{{', '.join(f'{ot}::value_type({a.oexpr}, {b.oexpr})' for a, b in zip(keys, vals))}}}"
             return Val(ct, e, ot, oe if not same else e, same, adj, calloc=len(keys) > 0)
@@ -495,7 +509,7 @@ def build_case(cid, beh, rng, consts, fresh=0, big=None, origin=""):
     body = []
     for si, s in enumerate(stmts):
         st = s["step"]
-        g = Gen(rng, stretch=True, big=big if si == len(stmts) - 1 else None)
+        g = Gen(rng, stretch=True, big=big if si == len(stmts) - 1 else None, long_in_container=rng.random() < 0.6)
         args = st["args"]
         tops = [g.top(a["ty"], a["val"], f"a{i}") for i, a in enumerate(args)]
         if g.nalt_bits > 4:
@@ -549,7 +563,8 @@ def build_case(cid, beh, rng, consts, fresh=0, big=None, origin=""):
         body += L
         adj = sum(tp["adj"] for tp in tops)
         classes = [arg_class(a["ty"]) for a in args]
-        cls = next((c for c in classes if c != "covered"), "covered")
+        worded = {"excluded:" + w for w in _EXCL_WHY.values()}      # excluded by the property's own wording: named first
+        cls = next((c for c in classes if c in worded), next((c for c in classes if c != "covered"), "covered"))
         if cls == "covered" and st["npush"] > consts["cachecap"]:
             cls = "excluded:cache-spill"
         if cls == "covered" and len(args) > 27:
